@@ -31,6 +31,7 @@ import (
 	"errors"
 	"fmt"
 	"os"
+	"path/filepath"
 	"runtime"
 	"sort"
 	"strings"
@@ -42,6 +43,7 @@ import (
 	"github.com/risor-io/risor/object"
 
 	"verif/internal/mon"
+	"verif/internal/props/racelog"
 )
 
 const ID = "C06"
@@ -55,7 +57,7 @@ const (
 	tickBound  = 256                   // T: further ticks allowed per ticking goroutine between cancel and return
 	settleStep = 40 * time.Millisecond // distance of the samples taken after the return
 	settleMax  = 8                     // the counter must advance in all of these intervals to count as "keeps running"
-	watchdog   = 15 * time.Second
+	watchdog   = 10 * time.Second
 )
 
 // ---------------------------------------------------------------------------------------
@@ -149,10 +151,19 @@ func worker(kind string, data json.RawMessage) any {
 	}
 	var m multi
 	for i := 0; i < n; i++ {
-		m.Runs = append(m.Runs, runCase(&c))
+		o := runCase(&c)
+		m.Runs = append(m.Runs, o)
+		if !o.Returned {
+			break // a hang reproduced once is enough; the stuck evaluation may still be burning a processor
+		}
 	}
 	return m
 }
+
+// hangsSeen counts evaluations that did not return in this worker process. Real hangs are
+// deterministic, so after a few of them the remaining cases of the batch get a shorter watchdog (every
+// candidate is re-run alone with the full watchdog before anything is reported).
+var hangsSeen atomic.Int32
 
 type evalResult struct {
 	v   object.Object
@@ -199,7 +210,13 @@ func runCase(c *caseData) (o obs) {
 			markCancel(n - 1)
 			ct = cancelTick.Load()
 		}
-		if ct >= 0 && !returned.Load() {
+		if returned.Load() {
+			// a straggler after the return: keep counting, but do not burn a processor while the
+			// settle samples are taken
+			time.Sleep(200 * time.Microsecond)
+			return object.Nil
+		}
+		if ct >= 0 {
 			// cooperative between cancel and return: let the watcher goroutine run
 			runtime.Gosched()
 			d := time.Duration(n-ct) * 20 * time.Microsecond
@@ -217,6 +234,13 @@ func runCase(c *caseData) (o obs) {
 			}
 			close(parkedCh)
 		})
+		return object.Nil
+	})
+
+	release := make(chan struct{})
+	defer close(release)
+	hostblock := object.NewBuiltin("hostblock", func(_ context.Context, args ...object.Object) object.Object {
+		<-release // host code that ignores the context; released when the case is over
 		return object.Nil
 	})
 
@@ -240,7 +264,7 @@ func runCase(c *caseData) (o obs) {
 			done <- r
 		}()
 		r.v, r.err = risor.Eval(ctx, c.Src, risor.WithConcurrency(),
-			risor.WithGlobals(map[string]any{"tick": tick, "parked": parked}))
+			risor.WithGlobals(map[string]any{"tick": tick, "parked": parked, "hostblock": hostblock}))
 	}()
 	if c.Mode == "cancel" && sh.Kind == "park" {
 		go func() {
@@ -258,10 +282,15 @@ func runCase(c *caseData) (o obs) {
 	}
 
 	var r evalResult
+	wd := watchdog
+	if hangsSeen.Load() >= 2 && c.Repeat <= 1 {
+		wd = watchdog / 4
+	}
 	select {
 	case r = <-done:
 		o.Returned = true
-	case <-time.After(watchdog):
+	case <-time.After(wd):
+		hangsSeen.Add(1)
 		o.AtReturn = ticks.Load()
 		o.CancelTick = cancelTick.Load()
 		o.Parked = parkedFlag.Load()
@@ -351,7 +380,11 @@ func judge(c *caseData, o *obs) []verdict {
 		return []verdict{{"harness:" + o.HarnessNote, head}}
 	}
 	if !o.Returned {
-		return []verdict{{"no-return:" + c.shapeTag(), head + fmt.Sprintf("risor.Eval had not returned %v after the start (context error by then: %q, %d ticks before the cancellation, %d ticks in total)", watchdog, o.CtxErr, o.CancelTick, o.AtReturn)}}
+		tag := c.shapeTag()
+		if len(c.Chain) > 0 {
+			tag = "recv-op" // the main program of a nested case has started the goroutines and blocks in a receive
+		}
+		return []verdict{{"no-return:" + tag, head + fmt.Sprintf("risor.Eval had not returned %v after the start (context error by then: %q, %d ticks before the cancellation, %d ticks in total)", watchdog, o.CtxErr, o.CancelTick, o.AtReturn)}}
 	}
 	if strings.HasPrefix(o.ErrText, "GO PANIC: ") {
 		vs = append(vs, verdict{"go-panic:" + c.shapeTag(), head + o.ErrText})
@@ -551,6 +584,10 @@ func drive(d *mon.Driver, replay string) int {
 			fmt.Println("cannot load replay:", err)
 			return 3
 		}
+		if c.Shape == "" {
+			// the witness of a race report is the workload as a whole
+			return drive(d, "")
+		}
 		if sh := shapeByName(c.Shape); sh != nil && c.Src == "" {
 			c.Src = render(sh, c.Tail, c.Chain, c.Mid)
 		}
@@ -678,28 +715,62 @@ func drive(d *mon.Driver, replay string) int {
 	// confirmation: every candidate is re-run alone (3 times, few processes at a time); a signature is
 	// reported only when it shows again
 	sort.Slice(cands, func(i, j int) bool { return cands[i].id < cands[j].id })
-	// many candidates with one signature need only a few confirmations
+	// many candidates with one signature need only a few confirmations, and the confirmation budget is
+	// shared fairly between the oracle clauses (round-robin over the kind = text before the first ':')
 	perSig := map[string]int{}
 	var confirm []mon.Case
 	want := map[string]cand{}
+	byKind := map[string][]cand{}
+	var kinds []string
 	for _, cd := range cands {
-		need := false
+		k := ""
 		for sig := range cd.sigs {
-			if perSig[sig] < 3 {
-				need = true
+			kk := strings.SplitN(sig, ":", 2)[0]
+			if k == "" || kk < k {
+				k = kk
 			}
 		}
-		if !need {
-			d.Event("candidates-not-rerun-same-signature", 1)
-			continue
+		if _, ok := byKind[k]; !ok {
+			kinds = append(kinds, k)
 		}
-		for sig := range cd.sigs {
-			perSig[sig]++
+		byKind[k] = append(byKind[k], cd)
+	}
+	sort.Strings(kinds)
+	for more := true; more && len(confirm) < 60; {
+		more = false
+		for _, k := range kinds {
+			for len(byKind[k]) > 0 {
+				cd := byKind[k][0]
+				byKind[k] = byKind[k][1:]
+				need := false
+				for sig := range cd.sigs {
+					if perSig[sig] < 2 {
+						need = true
+					}
+				}
+				if !need {
+					d.Event("candidates-not-rerun-same-signature", 1)
+					continue
+				}
+				for sig := range cd.sigs {
+					perSig[sig]++
+				}
+				c := *byID[cd.id]
+				c.Repeat = 3
+				confirm = append(confirm, mon.NewCase(cd.id, "case", c))
+				want[cd.id] = cd
+				more = true
+				break
+			}
+			if len(confirm) >= 60 {
+				break
+			}
 		}
-		c := *byID[cd.id]
-		c.Repeat = 3
-		confirm = append(confirm, mon.NewCase(cd.id, "case", c))
-		want[cd.id] = cd
+	}
+	for _, k := range kinds {
+		if n := len(byKind[k]); n > 0 {
+			d.Event("candidates-not-rerun-budget", n)
+		}
 	}
 	d.Event("candidates", len(cands))
 	candSigs := map[string]int{}
@@ -741,6 +812,53 @@ func drive(d *mon.Driver, replay string) int {
 				}
 			}
 		})
+	}
+	// secondary monitor: the goroutine-spawning cases once more under the race detector (only its
+	// reports are judged there; the timing of an instrumented binary says nothing about the bounds)
+	if rb := os.Getenv("VERIF_RACE_BIN"); rb != "" {
+		if _, err := os.Stat(rb); err == nil {
+			var rc []mon.Case
+			stride := d.N(6, 40)
+			k := 0
+			for i := range cases {
+				if len(cases[i].Chain) == 0 && cases[i].Shape != "thread-wait-ticking" && cases[i].Shape != "for-range-chan-fed" {
+					continue
+				}
+				if k%stride == 0 {
+					rc = append(rc, mon.NewCase(fmt.Sprintf("r%05d", i), "case", cases[i]))
+				}
+				k++
+			}
+			raceSeen := map[string]int{}
+			d.RunPool(rc, mon.PoolOpts{Binary: rb, BatchSize: 8, Parallel: par, BatchTimeout: 15 * time.Minute,
+				Env: []string{"GORACE=halt_on_error=0 log_path=race"},
+				AfterBatch: func(dir string, _ []mon.Case) {
+					files, _ := filepath.Glob(filepath.Join(dir, "race.*"))
+					for _, f := range files {
+						b, err := os.ReadFile(f)
+						if err != nil {
+							continue
+						}
+						for _, rep := range racelog.Parse(string(b)) {
+							d.Event("race-reports", 1)
+							if rep.Sig == "" {
+								d.Event("race-reports-without-risor-frame", 1)
+								continue
+							}
+							raceSeen[rep.Sig]++
+							if raceSeen[rep.Sig] == 1 {
+								d.Violation(rep.Sig, "the race detector reported, while cancelled programs with spawned goroutines ran:\n"+mon.Truncate(rep.Text, 3500), map[string]any{"race": rep.Sig})
+							}
+						}
+					}
+				}}, func(mc mon.Case, res mon.Result) {
+				d.Event("cases-under-race-detector", 1)
+			})
+		} else {
+			d.Event("race-binary-missing", 1)
+		}
+	} else {
+		d.Event("race-binary-missing", 1)
 	}
 	d.Extra("max_ticks_between_cancel_and_return", maxAfter)
 	d.Extra("max_ms_between_cancel_and_return", maxReturnMs)
